@@ -2,6 +2,13 @@
 `arcadrv prepare`: run `Arca.Model.prepare` on the abstract workflow of every case and compare with what the real
 `executor.Prepare` did: verdict class and, when accepted, node ids, edges with dependency types, and items
 (kind, step, stage, output, hasSchema, data), all canonically sorted.
+
+Expressions with operators: the harness (`parseExprOps`, cmd_prepare_shapes.go) encodes `l op r` as the call
+`{"x":"call","fn":"op","args":[l,r]}` (unary: one argument) on BOTH sides - the generator's abstract workflow and the
+expressions found in the real DAG items - so `Expr.deps` yields the dependency paths of both operands, left to right, as
+`binaryOperationDependencies` of the expressions library does, and every one of them is an edge the model requires
+(`Arca.Props.C10.prepare_every_ref_connected`).  Cases of a sequence (`seq`: several workflows prepared on ONE executor)
+are ordinary cases: `verdict` / `dag` are what the shared executor produced, the model knows no executor history.
 -/
 import Arca.Driver.Codec
 import Arca.Model.Prepare
